@@ -216,8 +216,15 @@ func c07() []*Ob {
 						if a.How != "load" && a.How != "store" {
 							continue
 						}
-						if why, ok := classes[FuncName(top)]; ok {
-							if a.Write && FuncName(top) != "(*frac.Active).releaseMem" && FuncName(top) != "frac.NewActive" {
+						ownerName := FuncName(top)
+						if _, direct := classes[ownerName]; !direct {
+							// a private helper of a tabled reader/writer inherits its class
+							if o, ok := c.P.OwnedBy(fn, func(n string) bool { _, is := classes[n]; return is }); ok {
+								ownerName = o
+							}
+						}
+						if why, ok := classes[ownerName]; ok {
+							if a.Write && ownerName != "(*frac.Active).releaseMem" && ownerName != "frac.NewActive" {
 								c.Violation("own:Active."+a.Field+":write:"+FuncName(fn), InstrPos(a.Instr), "%s writes frac.Active.%s; only NewActive and releaseMem may", FuncName(fn), a.Field)
 								continue
 							}
